@@ -215,16 +215,21 @@ def transform_fns(D: int) -> List[Fn]:
         def forward(self, *args, **kwargs):
             return self.w * self.g + 0.25 * self.w * self.w
 
+    # dense fields whose parameters live on a coarser grid and are NOT resized when set (stride > 1, resize=False): the displacement is then
+    # a resampled function of the parameters
+    coarse = {f"{n}[stride=2,resize=False]": n for n in ("DisplacementFieldTransform", "StationaryVelocityFieldTransform")}
     predicted = {f"{n}[predicted]": n for n in ("Translation", "AffineTransform", "DisplacementFieldTransform", "StationaryVelocityFieldTransform",
                                                 "FreeFormDeformation", "StationaryVelocityFreeFormDeformation")}
-    for name in names + list(composites) + list(predicted):
-        cls = composites.get(name) or getattr(S, predicted.get(name, name), None)
+    for name in names + list(composites) + list(predicted) + list(coarse):
+        cls = composites.get(name) or getattr(S, predicted.get(name, coarse.get(name, name)), None)
         if cls is None or ("Quaternion" in name and D == 2):
             continue
 
         def build(cls=cls, name=name):
             grid = Grid(size=size, spacing=(1.0, 0.8, 1.25)[:D])
-            if name in predicted:
+            if name in coarse:
+                t = cls(grid, stride=2, resize=False).double()
+            elif name in predicted:
                 probe = cls(grid)
                 t = cls(grid, params=Pred(probe.data_shape)).double()
             else:
